@@ -183,6 +183,45 @@ def conc_mismatch(case):
     return got, common.ref_ragged(common.rows_of(case["data"], case["lens"]), "int64")
 
 
+# ------------------------------------------------------------------ C01.narrow: row lengths given in a narrow integer dtype
+def _narrow_obs(RaggedArray, lens, ldt, S):
+    from npstructures import RaggedShape
+    data = np.arange(S, dtype="int64") if not common.SYMBOLIC else common.arr(list(range(S)), "int64")
+    l = common.arr(lens, ldt)
+    ra = RaggedArray(data, l)
+    sh = RaggedShape(l)
+    return (ra, ra._shape.starts, ra._shape.ends, ra.size, sh.starts, sh.size)
+
+
+def sym_narrow(E, p, kf):
+    from symx import specs
+    from npstructures import RaggedArray
+    R = E.concretize(E.int("R", 1, p["R"]))
+    lens = [E.choose(f"l{r}", p["choices"]) for r in range(R)]      # large lengths: their prefix sums exceed the narrow dtype's range
+    S = sum(lens)
+    got = outcome(lambda: _narrow_obs(RaggedArray, lens, p["ldt"], S))
+    starts = [sum(lens[:i]) for i in range(R)]
+    ends = [a + b for a, b in zip(starts, lens)]
+    A = lambda v: dict(k="array", flat=v, shape=[len(v)], dtype="*")
+    exp = dict(k="tuple", items=[dict(k="ragged", flat=list(range(S)), lens=lens, dtype="int64"), A(starts), A(ends), dict(k="scalar", val=S, dtype="*"), A(starts), dict(k="scalar", val=S, dtype="*")])
+    return dict(goal=specs.obs_goal(got, exp), got=got, case=dict(lens=lens, ldt=p["ldt"]))
+
+
+def conc_narrow(case):
+    from npstructures import RaggedArray
+    lens = case["lens"]
+    S, R = sum(lens), len(lens)
+    got = outcome(lambda: _narrow_obs(RaggedArray, lens, case["ldt"], S))
+    starts = [sum(lens[:i]) for i in range(R)]
+    ends = [a + b for a, b in zip(starts, lens)]
+    A = lambda v: common.ref_array(v, [len(v)], "*")
+    return got, dict(k="tuple", items=[common.ref_ragged(common.rows_of(list(range(S)), lens), "int64"), A(starts), A(ends), dict(k="scalar", val=S, dtype="*"), A(starts), dict(k="scalar", val=S, dtype="*")])
+
+
+def jobs_narrow(tier, seed):
+    return [dict(h="C01.narrow", p=dict(R=3, ldt=ldt, choices=ch)) for ldt, ch in (("int8", [0, 50, 100]), ("uint8", [0, 100, 200]), ("int16", [0, 50]))]
+
+
 # ------------------------------------------------------------------ C01.lists (+ tolist / iteration)
 def observe_lists(RaggedArray, rows, dtype, via):
     if via == "lists":
@@ -459,6 +498,7 @@ def kf_match(case):
 
 harness("C01.build", jobs_build, sym_build, conc_build)
 harness("C01.mismatch", jobs_mismatch, sym_mismatch, conc_mismatch)
+harness("C01.narrow", jobs_narrow, sym_narrow, conc_narrow)
 harness("C01.lists", jobs_lists, sym_lists, conc_lists)
 harness("C01.astype", jobs_astype, sym_astype, conc_astype)
 harness("C01.numpy", jobs_numpy, sym_numpy, conc_numpy)
